@@ -1412,3 +1412,17 @@ def finish(world, spec, ch, cfg, ops, harness):
             "log_tail": v.get("log_at") or list(world.log.tail)[-60:],
         }
     return res
+
+
+def run_c08(spec):
+    """C08: mostly sctp_sim runs (corruption in transit + wire monitor on everything the endpoints emit); every
+    fourth run is a hostile_sim session whose forging actor also submits well-formed packets of every chunk type
+    (parameter lists with empty values in every position, all padding cases) to the same round-trip monitor."""
+    if spec.get("replay") is not None:
+        mix = spec["replay"].get("engine") == "hostile_sim"
+    else:
+        mix = spec.get("run", 0) % 4 == 3
+    if mix:
+        from . import hostile_sim
+        return hostile_sim.run(spec)
+    return run(spec)
